@@ -161,6 +161,21 @@ def run(ctx: Ctx):
     ctx.ob("R18.4", f"{gc.qual}: cost = seconds / 3600 x rate over this task's records", gc, seconds_to_hours and mult and only_own,
            "rate x booked hours of this task" if seconds_to_hours and mult and only_own else "cost formula changed",
            key="R18.4|getCost|formula")
+    # sibling agreement: the allocation forms the booking code understands are the forms the cost code resolves
+    def alloc_keys(fn):
+        ks = set()
+        for c in own_nodes(fn):
+            if isinstance(c, ast.Call) and isinstance(c.func, ast.Attribute) and c.func.attr == "get" and c.args and isinstance(c.args[0], ast.Constant) \
+                    and c.args[0].value in ("resources", "options", "alternative"):
+                ks.add(c.args[0].value)
+        return ks
+    kb, kc = alloc_keys(repo.func("TaskScenario.bookResources")), alloc_keys(repo.func("TaskScenario._getResourcesForTask"))
+    ok = bool(kb) and kb <= kc
+    ctx.ob("R18.4", f"allocation forms: booking reads {sorted(kb)}, cost resolution reads {sorted(kc)}", repo.func("TaskScenario._getResourcesForTask"), ok,
+           "an allocation with options (alternatives) is resolved to its candidate resources for the cost too" if ok else
+           f"the cost code does not understand the allocation form with {sorted(kb - kc)}: the cost cell of a task written as "
+           "`allocate r1 { alternative r2 }` is '-' instead of rate x booked time",
+           key="R18.4|_getResourcesForTask|allocation forms")
     gcv = repo.func("TableReport._get_cell_value")
     ok = any(isinstance(i, ast.If) and "'cost'" in norm(i.test) and any("_get_cost_value" in norm(s) for s in i.body) for i in own_nodes(gcv))
     ctx.ob("R18.4", f"{gcv.qual}: column cost -> _get_cost_value", gcv, ok, "cost column is computed from the ledger" if ok else
@@ -308,6 +323,28 @@ def run(ctx: Ctx):
                    "text filters are interpreted before the truthiness fallback" if ok else
                    "the parser stores the filter as text and the dispatch decides it by the truthiness of that text: '@none' (hide nothing) "
                    "is a non-empty string and hides every row", key="R18.6|_eval_expression|text filter")
+    # every text filter is interpreted: no path from the `isinstance(expr, str)` branch reaches the truthiness fallback
+    str_ifs = [n for n in g2.nodes if n.kind == "if" and n.ast is not None and "isinstance(expr, str)" in norm(n.ast.test if isinstance(n.ast, ast.If) else n.ast)]
+    fallbacks = [g2.node_of(r) for r in returns(ev) if isinstance(r.value, ast.Call) and norm(r.value.func) == "bool" and r.value.args
+                 and norm(r.value.args[0]) == "expr"]
+    if text_typed and str_ifs and fallbacks:
+        leak = False
+        for n0 in str_ifs:
+            seen_, todo_ = set(), [b for (b, l) in g2.succ[n0.id] if l == "T"]
+            while todo_:
+                a_ = todo_.pop()
+                if a_ in seen_:
+                    continue
+                seen_.add(a_)
+                if any(a_ == f.id for f in fallbacks if f is not None):
+                    leak = True
+                    break
+                todo_ += [b for (b, l) in g2.succ[a_] if l not in ("exc", "excb")]
+        ctx.ob("R18.6", f"{ev.qual}: every text filter is interpreted", (ev, str_ifs[0].ast), not leak,
+               "no text reaches the truthiness fallback" if not leak else
+               "a filter text other than the two constants falls through to bool(expr): `hidetask ~isleaf()` is a non-empty string, so every "
+               "task is hidden and the report has a header and no rows",
+               key="R18.6|_eval_expression|uninterpreted text")
     consts = {}
     for i in own_nodes(ev):
         if isinstance(i, ast.If) and isinstance(i.test, ast.Compare) and len(i.test.comparators) == 1 and const_str(i.test.comparators[0]) in ("@none", "@all"):
